@@ -56,7 +56,7 @@ pub fn __parse_unicode_oct(first_char: &char, chars: &mut Enumerate<Chars>) -> (
             ({ let v = oct_val3(*first_char, old(chars).rest()[0], old(chars).rest()[1])->Some_0;
                if v <= 255 { r == Ok::<char, ParseUnicodeError>(chr(v)) } else { r is Err } }),
 { unimplemented!() }
-broadcast use {lit_ax::axiom_chr_of_char, lit_ax::axiom_char_of_chr};
+broadcast use {lit_ax::axiom_chr_of_char, lit_ax::axiom_char_of_chr, vstd::string::group_string_axioms};
 // ---- parse_bytes environment (R6 wrappers; each body is the original expression, each contract ASSUMED from std) ----
 #[verifier::external_body] pub fn __vec_with_capacity(s: &str) -> (r: Vec<u8>) ensures r@ == Seq::<u8>::empty() { unimplemented!() }
 /// `[c1, .., cn].iter().collect::<String>()`
